@@ -95,11 +95,12 @@ def errs(d):
 
 
 def lift(op, args):
-    bad = [a for a in args if isinstance(a, Err)]
-    if bad:                          # an operand failed: so does the whole
+    if any(isinstance(a, Err) for a in args):
+        # an operand failed: so does the whole; which operand's error
+        # surfaces first depends on the evaluation order, so any of them
         cl = set()
-        for b in bad:
-            cl |= b.classes
+        for a in args:
+            cl |= errs(a)
         return Err(cl)
     outer = next((a for a in args if not is_scalar(a)), None)
     if outer is None:
